@@ -9,7 +9,8 @@ use std::collections::BTreeMap;
 use std::sync::{Arc, Mutex};
 
 #[derive(Serialize, Deserialize, Clone, Debug)]
-pub struct WinCase { pub hash_seed: u64, pub width: usize, pub slide: usize, pub start: usize, pub items: Vec<(u32, usize)>, pub non_empty_strategy: bool, pub channel: bool, pub shuttle_seed: u64, pub pct: bool, #[serde(default)] pub prob_mask: u64 }
+pub struct WinCase { pub hash_seed: u64, pub width: usize, pub slide: usize, pub start: usize, pub items: Vec<(u32, usize)>, pub non_empty_strategy: bool, pub channel: bool, pub shuttle_seed: u64, pub pct: bool, #[serde(default)] pub prob_mask: u64, /// flush() is called before these arrival indices (callback path); the merged report it emits is not a window report
+    #[serde(default)] pub flush_at: Vec<usize> }
 pub struct C09;
 type Content = Vec<(u32, usize)>;
 
@@ -27,7 +28,7 @@ pub fn shuttle_run<F: Fn() + Send + Sync + 'static>(seed: u64, pct: bool, max_st
 impl Prop for C09 {
     type Case = WinCase;
     fn id(&self) -> &'static str { "C09" }
-    fn expected_counters(&self) -> Vec<&'static str> { vec!["fault.shuttle_scheduled_channel_consumer", "probe.width_smaller_than_slide", "probe.width_not_multiple_of_slide", "fault.burst_same_timestamp", "fault.jump_larger_than_width"] }
+    fn expected_counters(&self) -> Vec<&'static str> { vec!["fault.shuttle_scheduled_channel_consumer", "probe.width_smaller_than_slide", "probe.width_not_multiple_of_slide", "fault.burst_same_timestamp", "fault.jump_larger_than_width", "fault.flush_in_the_middle_of_the_stream"] }
     fn budget(&self, tier: Tier) -> Budget { match tier { Tier::Quick => Budget { runs: 60_000, wall_s: 60, recheck: 40 }, Tier::Thorough => Budget { runs: 6_000_000, wall_s: 1000, recheck: 200 } } }
     fn hash_seed(&self, c: &WinCase) -> u64 { c.hash_seed }
     fn gen(&self, seed: u64, _i: u64, _t: Tier) -> WinCase {
@@ -42,7 +43,7 @@ impl Prop for C09 {
             items.push((if dup { r.below(5) as u32 } else { k as u32 }, gap));
         }
         let channel = cfg.chance(1, 6);
-        WinCase { hash_seed: Rng::sub(seed, "hash").next(), width, slide, start: r.usize(6), items, non_empty_strategy: cfg.chance(1, 6), channel, shuttle_seed: Rng::sub(seed, "shuttle").next(), pct: cfg.chance(1, 2), prob_mask: if cfg.chance(1, 4) { r.next() } else { 0 } }
+        WinCase { hash_seed: Rng::sub(seed, "hash").next(), width, slide, start: r.usize(6), items, non_empty_strategy: cfg.chance(1, 6), channel, shuttle_seed: Rng::sub(seed, "shuttle").next(), pct: cfg.chance(1, 2), prob_mask: if cfg.chance(1, 4) { r.next() } else { 0 }, flush_at: if cfg.chance(1, 5) { (0..(1 + r.usize(2))).map(|_| 1 + r.usize(n)).collect() } else { vec![] } }
     }
     fn exec(&self, c: &WinCase, ctx: &mut Ctx) -> Option<Violation> {
         if c.width == 0 || c.slide == 0 || c.items.is_empty() { return None; }
@@ -59,6 +60,9 @@ impl Prop for C09 {
         // some items arrive as probabilistic occurrences (the twin ingestion path of the window)
         let mut registry = shared::hybrid::SeedRegistry::new();
         for (k, (id, ts)) in arrivals.iter().enumerate() {
+            // a flush in the middle of the stream hands the consumer one merged container (dropped here) and must leave the open
+            // windows as they are
+            if c.flush_at.contains(&k) { let b = fired.lock().unwrap().len(); win.flush(); fired.lock().unwrap().truncate(b); ctx.hit("fault.flush_in_the_middle_of_the_stream"); }
             let before = fired.lock().unwrap().len();
             if (c.prob_mask >> (k % 64)) & 1 == 1 {
                 let event = registry.next_event_key("s", *ts);
@@ -136,6 +140,7 @@ impl Prop for C09 {
         if c.channel { out.push(WinCase { channel: false, ..c.clone() }); }
         if c.non_empty_strategy { out.push(WinCase { non_empty_strategy: false, ..c.clone() }); }
         if c.prob_mask != 0 { out.push(WinCase { prob_mask: 0, ..c.clone() }); }
+        if !c.flush_at.is_empty() { out.push(WinCase { flush_at: vec![], ..c.clone() }); }
         out
     }
     fn rule(&self) -> String { "A case is one in-order stream (<= 40 items, bursts with equal timestamps, gaps <= slide, small gaps, jumps far beyond the width, repeated items) pushed into a real CSPARQLWindow with width, slide in 1..12 (independently; width < slide and width not a multiple of slide included) through the callback and - in 1 run in 12 - through the channel with a consumer thread under a seeded shuttle schedule. Oracle over the recorded history: every report is the item set of one aligned interval not after its trigger, triggers strictly increase, intervals are non-decreasing and none is reported twice; with gaps <= slide every non-empty closing interval is reported exactly once; channel and callback agree. Non-trivial = at least 2 reports; distinct = hash of (width, slide, arrivals).".into() }
@@ -237,7 +242,7 @@ fn sorted(mut v: Vec<Row>) -> Vec<Row> { v.sort(); v }
 impl Prop for C10 {
     type Case = SingleCase;
     fn id(&self) -> &'static str { "C10" }
-    fn expected_counters(&self) -> Vec<&'static str> { vec!["probe.raw_item_equals_fact_derived_in_previous_firing", "fault.shuttle_schedule_executed", "probe.consumer_rows_interleaved_with_pushes", "probe.rules_loaded"] }
+    fn expected_counters(&self) -> Vec<&'static str> { vec!["probe.raw_item_equals_fact_derived_in_previous_firing", "fault.shuttle_schedule_executed", "probe.consumer_rows_interleaved_with_pushes", "probe.rules_loaded", "probe.firing_with_a_non_empty_newest_closed_interval"] }
     fn budget(&self, tier: Tier) -> Budget { match tier { Tier::Quick => Budget { runs: 8000, wall_s: 60, recheck: 20 }, Tier::Thorough => Budget { runs: 400_000, wall_s: 1000, recheck: 60 } } }
     fn hash_seed(&self, c: &SingleCase) -> u64 { c.hash_seed }
     fn gen(&self, seed: u64, _i: u64, tier: Tier) -> SingleCase {
@@ -256,9 +261,9 @@ impl Prop for C10 {
         let varpred = cfg.chance(1, 6);
         let block: Vec<Pat> = (0..k).map(|i| (if r.chance(1, 5) { node(&mut r) } else { vars[i].to_string() }, if varpred && i == 0 { "?pv".to_string() } else { iri(preds[r.usize(3)]) }, if r.chance(1, 5) { node(&mut r) } else { vars[i + 1].to_string() })).collect();
         let collisions = cfg.chance(1, 3);
-        let gapmode = cfg.below(4);
+        let gapmode = cfg.below(5);
         let n = 4 + r.usize(16);
-        let events = (0..n).map(|_| Ev { gap: match gapmode { 0 => r.usize(2), 1 => r.usize(slide + 1), 2 => if r.chance(1, 5) { 2 * width + r.usize(6) } else { r.usize(3) }, _ => 1 + r.usize(2) }, stream: 0, s: node(&mut r), p: iri(if collisions { preds[r.usize(3)] } else { "p" }), o: node(&mut r), advance_ms: 0 }).collect();
+        let events = (0..n).map(|_| Ev { gap: match gapmode { 0 => r.usize(2), 1 => r.usize(slide + 1), 2 => if r.chance(1, 5) { 2 * width + r.usize(6) } else { r.usize(3) }, 4 => if r.chance(1, 3) { r.usize(width + 1) } else { r.usize(2) }, _ => 1 + r.usize(2) }, stream: 0, s: node(&mut r), p: iri(if collisions { preds[r.usize(3)] } else { "p" }), o: node(&mut r), advance_ms: 0 }).collect();
         let ns = if tier == Tier::Quick { 3 } else { 8 };
         SingleCase { hash_seed: Rng::sub(seed, "hash").next(), width, slide, op: r.below(3) as u8, rules, block, start: r.usize(3), events, schedules: (0..ns).map(|i| (sr.next(), i % 2 == 1)).collect() }
     }
@@ -270,6 +275,19 @@ impl Prop for C10 {
         let a = match guard(|| single_scenario(c, OperationMode::SingleThread, Arc::new(Mutex::new(vec![])))) { Ok(Ok(a)) => a, Ok(Err(e)) => { ctx.hit("engine_build_rejected_skipped"); ev!(ctx.log, "build: {}", e); return None; } Err((loc, msg)) => return Some(Violation::new("unwind", format!("single-thread engine unwound at {}: {}", loc, msg.chars().take(200).collect::<String>()))) };
         let expect = expected_firings(c, &a.contents);
         ev!(ctx.log, "single-thread: {} events, {} firings, {} rows", c.events.len(), a.contents.len(), a.rows.len());
+        // "the current window, nothing older": when the newest interval that has closed at the firing's timestamp, [k-RANGE, k) with
+        // k = floor(ts / STEP) * STEP, holds items and was not the subject of the previous firing, it is the window the firing is about
+        {
+            let mut tss = vec![]; let mut t = c.start; for (i, ev) in c.events.iter().enumerate() { if i > 0 { t += ev.gap; } tss.push(t); }
+            for (fi, (i, content)) in a.contents.iter().enumerate() {
+                let k = (tss[*i] / c.slide) * c.slide; let lo = k.saturating_sub(c.width);
+                let newest: BTreeSet<Fact> = (0..=*i).filter(|j| tss[*j] >= lo && tss[*j] < k).map(|j| (c.events[j].s.clone(), c.events[j].p.clone(), c.events[j].o.clone())).collect();
+                if !newest.is_empty() { ctx.hit("probe.firing_with_a_non_empty_newest_closed_interval"); }
+                if !newest.is_empty() && &newest != content && (fi == 0 || a.contents[fi - 1].1 != newest) {
+                    return Some(Violation::new("firing-over-a-stale-window", format!("[RANGE {} STEP {}]: the firing at event {} (t={}) is about the content {:?}, but the newest interval closed by then, [{}, {}), holds {:?}", c.width, c.slide, i, tss[*i], content, lo, k, newest)));
+                }
+            }
+        }
         let mut start = 0usize; let mut fi = 0usize;
         for (i, mark) in a.marks.iter().enumerate() {
             let got = a.rows[start..*mark].to_vec(); start = *mark;
